@@ -24,29 +24,69 @@ type ErrUse struct {
 	Tests  []NilTest
 }
 
-// flowsToReturn: v reaches a Return's error operand through wrappers / phis only.
-func flowsToReturn(v ssa.Value, depth int, seen map[ssa.Value]bool) bool {
-	if depth > 6 || v == nil || v.Referrers() == nil || seen[v] {
+// mustFlowToReturn: on every path from its definition to a function exit, the (untested) error value v is what the
+// function returns as its error (possibly wrapped).  Carriers of v are v itself, pkg/errors wrappers of a carrier,
+// and phis all of whose incoming edges *that can be reached from v's definition* are carriers.
+func mustFlowToReturn(v ssa.Value) bool {
+	def, ok := v.(ssa.Instruction)
+	if !ok {
 		return false
 	}
-	seen[v] = true
-	for _, r := range *v.Referrers() {
-		switch x := r.(type) {
-		case *ssa.Return:
-			if len(x.Results) > 0 && x.Results[len(x.Results)-1] == v {
-				return true
-			}
-		case *ssa.Phi:
-			if flowsToReturn(x, depth+1, seen) {
-				return true
-			}
-		case *ssa.Call:
-			if in, ok := IsErrWrap(x); ok && in == v && flowsToReturn(x, depth+1, seen) {
-				return true
+	fn := def.Parent()
+	from := ReachableFrom(def.Block(), nil)
+	carriers := map[ssa.Value]bool{v: true}
+	for changed := true; changed; {
+		changed = false
+		for _, b := range fn.Blocks {
+			for _, in := range b.Instrs {
+				val, isVal := in.(ssa.Value)
+				if !isVal || carriers[val] {
+					continue
+				}
+				switch x := in.(type) {
+				case *ssa.Call:
+					if inner, isWrap := IsErrWrap(x); isWrap && carriers[inner] {
+						carriers[x] = true
+						changed = true
+					}
+				case *ssa.Phi:
+					all, any := true, false
+					for i, e := range x.Edges {
+						pred := b.Preds[i]
+						if !from[pred] {
+							continue // this way in cannot come after v's definition
+						}
+						any = true
+						if !carriers[e] {
+							all = false
+						}
+					}
+					if all && any {
+						carriers[x] = true
+						changed = true
+					}
+				}
 			}
 		}
 	}
-	return false
+	n := 0
+	for b := range from {
+		if len(b.Instrs) == 0 {
+			continue
+		}
+		ret, isRet := b.Instrs[len(b.Instrs)-1].(*ssa.Return)
+		if !isRet {
+			continue
+		}
+		if b == def.Block() && instrIndex(ret) < instrIndex(def) {
+			continue
+		}
+		n++
+		if len(ret.Results) == 0 || !carriers[ret.Results[len(ret.Results)-1]] {
+			return false
+		}
+	}
+	return n > 0
 }
 
 // ClassifyErr classifies the treatment of the error returned by call.
@@ -74,10 +114,10 @@ func ClassifyErr(call *ssa.Call) ErrUse {
 		}
 		return ErrUse{Class: ErrTested, Tests: tests}
 	}
-	if flowsToReturn(ev, 0, map[ssa.Value]bool{}) {
+	if mustFlowToReturn(ev) {
 		return ErrUse{Class: ErrReturned}
 	}
-	return ErrUse{Class: ErrOther, Detail: "error is stored or passed on without a nil test"}
+	return ErrUse{Class: ErrOther, Detail: "error is neither nil-tested nor returned on every path from the call (it can be overwritten or dropped)"}
 }
 
 // escapeFromNonNil: a return that is not provably an error return, reachable from the non-nil edge of t.
